@@ -36,7 +36,8 @@ LEVEL_NOTE = ('Trusted: Coq kernel, the hand-written model Expiry.v, the corresp
               'of tile files written during a request with the simulated instant, decoding of tile colours).  Time is exact in '
               'quarter seconds; float rounding of time.time() and DST handling of mktime are not modelled (TZ=UTC).  Requests '
               'with duplicate or None coordinates, minimize_meta_requests, rescale_tiles, the mbtiles ttl option, '
-              'link_single_color_images: hardlink (shared inode mtime; oracle-only scenario, known finding) and concurrent '
+              'link_single_color_images: hardlink (shared inode mtime; oracle-only scenario, known finding), cascaded caches (a cache with '
+              'a limited extent as source of another cache, uncacheable upstream answer during a refresh; oracle-only scenario) and concurrent '
               'writers are outside the model.  Histories run under TZ UTC, EST-5 and WST5, with and without a pre_store_filter, '
               'over plain and symlinked single colour file caches, with response bodies that break while they are read, with one or two '
               'merged sources (the overlay answering with its uncacheable on_error placeholder), refresh_before time as string or as '
@@ -1242,6 +1243,120 @@ def hardlink_scenario(ctx):
                      'went upstream again' % (a, h['now'], 'the same' if same else 'another', ob['final'].get(a)), rep)
 
 
+def cascade_scenario(ctx):
+    """cascaded caches: cache B has cache A as its source (CacheSource) and A has an extent smaller than the grid, so the
+    answer for a tile of B that crosses the border of A's extent is placed into a larger image before B gets it.  Both
+    caches have the same refresh threshold.  Oracle only (A's answer to B is outside the model): while the upstream of A
+    answers with an on_error placeholder (cache: False) the refresh of B fails - it must not destroy / re-stamp the old
+    tile of B (nor of A), the tile stays stale, is fetched again when the upstream is back and is fresh afterwards."""
+    t0 = BASE * Q
+    edge, inside = (1, 0, 1), (0, 1, 1)        # level 1: 2x2 tiles of 16 units; A's extent ends at x = 24
+    ok1, bad, ok2 = ('ok', True, False, 5), ('ok', False, False, 9), ('ok', True, False, 7)
+    for backend in ('file', 'sqlite'):
+        for meta in (False, True):
+            conf = {'cache_B': backend, 'cache_B_meta_tiles': meta, 'cache_A': 'file, single tiles, extent (0, 0, 24, 32)',
+                    'requested': [edge, inside], 'threshold_ticks': t0 + 2 * Q, 'ticks_per_second': Q,
+                    'upstream_of_A': ['ok colour 5 at t0', 'placeholder colour 9, cache: False at t0+10s', 'ok colour 7']}
+            try:
+                obs = cascade_run(ctx, backend, meta, [edge, inside], t0, [ok1, bad, ok2])
+            except Exception as e:  # noqa
+                import traceback
+                ctx.problem('harness', 'cascaded cache scenario could not be run: %r' % (e,), traceback.format_exc()[-1500:])
+                continue
+            ctx.case(('cascade', backend, meta), True, None)
+            ctx.count('cascade_scenario')
+            rep = dict(conf, observed=obs)
+            created, failed, back, again = obs['phases']
+            for ph in obs['phases']:
+                if isinstance(ph['res'], str) and ph['res'].startswith('other'):
+                    ctx.fail(SIG_CRASH, 'cascaded caches: request raised %s' % ph['res'], rep)
+            if not created['calls'] or any(created['B_after'].get(str(c), (None,))[0] != 5 for c in (edge, inside)):
+                ctx.fail(SIG_SERVED, 'cascaded caches: first request did not create the tiles of B from the upstream answer', rep)
+                continue
+            if not failed['calls']:
+                ctx.fail(SIG_STALE, 'cascaded caches: stale tiles %r of B (threshold %r) were requested but the upstream was not '
+                         'asked' % ([edge, inside], t0 + 2 * Q), rep)
+            destroyed = False
+            for name in ('B', 'A'):
+                for c in (edge, inside):
+                    old, new = failed[name + '_before'].get(str(c)), failed[name + '_after'].get(str(c))
+                    if old is not None and new != old:
+                        destroyed = True
+                        ctx.fail(SIG_DESTROY, 'cascaded caches: the upstream of cache A answered with an uncacheable placeholder '
+                                 'while stale tile %r of cache %s (entry %r) was refreshed; the failed refresh changed the tile to %r'
+                                 % (c, name, old, new), rep)
+            if destroyed:
+                continue
+            if not back['calls']:
+                ctx.fail(SIG_STALE, 'cascaded caches: after the failed refresh the tiles of B count as fresh (no upstream request '
+                         'once the upstream is back)', rep)
+            elif any(back['B_after'].get(str(c)) != [7, t0 + 12 * Q] for c in (edge, inside)):
+                ctx.fail(SIG_CONVERGE, 'cascaded caches: successful refresh at %r left B with %r' % (t0 + 12 * Q, back['B_after']), rep)
+            elif again['calls'] or again['B_after'] != back['B_after']:
+                ctx.fail(SIG_FRESH, 'cascaded caches: refreshed tiles requested again: upstream asked %r' % (again['calls'],), rep)
+
+
+def cascade_run(ctx, backend, meta, coords, t0, answers):
+    from mapproxy.cache.tile import Tile
+    from mapproxy.layer import MapExtent
+    from mapproxy.source.tile import CacheSource
+    from mapproxy.srs import SRS
+    clock = Clock()
+    clock.ticks = t0
+    base_a, base_b = ctx.tmpdir('ca'), ctx.tmpdir('cb')
+    phases = []
+    with Patched(clock):
+        wa = World(base_a, 'file', False, [answers[0]] * 64, clock)
+        wb = World(base_b, backend, meta, [], clock)
+        wb.tm.sources = [CacheSource(wa.tm, extent=MapExtent((0, 0, 24, 32), SRS(4326)), image_opts=wa.opts)]
+
+        def entries(w):
+            out = {}
+            for c in coords:
+                t = Tile(c)
+                try:
+                    if not w.cache.load_tile(t, with_metadata=True) or t.source is None:
+                        continue
+                    px = t.source.as_image().convert('RGB').getpixel((0, 0))       # west column: inside A's extent
+                    out[str(c)] = [(px[0] << 16) | (px[1] << 8) | px[2], int(round(t.timestamp * Q))]
+                except Exception as e:  # noqa
+                    out[str(c)] = ['unreadable:' + type(e).__name__, -1]
+            try:
+                w.tm.cleanup()
+            except Exception:  # noqa
+                pass
+            return out
+
+        def request():
+            n = len(wa.source.calls)
+            ph = {'now': clock.ticks, 'B_before': entries(wb), 'A_before': entries(wa)}
+            try:
+                wb.tm.load_tile_coords(list(coords))
+                ph['res'] = 'served'
+            except Exception as e:  # noqa
+                ph['res'] = classify_exc(e)
+            for w in (wa, wb):
+                try:
+                    w.tm.cleanup()
+                except Exception:  # noqa
+                    pass
+                w.restamp()
+            ph['calls'] = [list(c) for c in wa.source.calls[n:]]
+            ph['B_after'], ph['A_after'] = entries(wb), entries(wa)
+            phases.append(ph)
+
+        request()                                   # created in both caches at t0
+        clock.ticks = t0 + 10 * Q
+        wa.tm._expire_timestamp = wb.tm._expire_timestamp = (t0 + 2 * Q) / float(Q)
+        wa.script = [answers[1]] * 64
+        request()                                   # refresh fails: uncacheable placeholder
+        clock.ticks = t0 + 12 * Q
+        wa.script = [answers[2]] * 64
+        request()                                   # upstream is back
+        request()                                   # fresh now
+    return {'phases': phases}
+
+
 # ----------------------------------------------------------------------------- generation
 
 def gen_rule(rng, target, now_holder):
@@ -1643,6 +1758,7 @@ def run(ctx):
             'steps': [{k: v for k, v in s.items() if k not in ('before', 'after', 'mid', 'rule', 'expire', 'ref')} for s in ob['steps']],
             'final_cache': sorted([list(c), list(v)] for c, v in ob['final'].items()), 'upstream_log': ob['log']}})
     hardlink_scenario(ctx)
+    cascade_scenario(ctx)
     bulk_stream(ctx)
     loader_stream(ctx)
     ctx.corr_check('history', 'Expiry', CASE_TYPE, terms, CHECKER, lambda i: descr[i], shard=60)
